@@ -263,11 +263,19 @@ func callProjection(c *ssa.Call, depth int) (string, bool) {
 // boolDNF returns the conditions (DNF over atom strings, in the CALLER's
 // terms) under which the call returns `want`.
 func boolDNF(c *ssa.Call, want bool, depth int) ([][]string, bool) {
+	return boolDNFIdx(c, 0, want, depth)
+}
+
+// boolDNFIdx: conditions under which result #idx (a bool) of the call is `want`.
+func boolDNFIdx(c *ssa.Call, idx int, want bool, depth int) ([][]string, bool) {
 	callee := c.Call.StaticCallee()
 	if callee == nil || depth > 3 || !curProgRoot(callee) || len(callee.Blocks) == 0 {
 		return nil, false
 	}
-	if b, ok := callee.Signature.Results().At(0).Type().Underlying().(*types.Basic); !ok || b.Kind() != types.Bool || callee.Signature.Results().Len() != 1 {
+	if idx >= callee.Signature.Results().Len() {
+		return nil, false
+	}
+	if b, ok := callee.Signature.Results().At(idx).Type().Underlying().(*types.Basic); !ok || b.Kind() != types.Bool {
 		return nil, false
 	}
 	if !sideEffectFree(callee, 0) {
@@ -314,7 +322,7 @@ func boolDNF(c *ssa.Call, want bool, depth int) ([][]string, bool) {
 		}
 	}
 	for _, r := range Returns(callee) {
-		addVal(RetVals(r)[0], pathCondsNoCtx(r.Block()), 0)
+		addVal(RetVals(r)[idx], pathCondsNoCtx(r.Block()), 0)
 	}
 	if len(out) == 0 || len(out) > 16 {
 		return nil, false
@@ -391,8 +399,14 @@ func expandAtomConj(a Atom, depth int) []string {
 		}
 		break
 	}
-	if call, ok := v.(*ssa.Call); ok {
-		if dnf, ok := boolDNF(call, pol, depth); ok {
+	call, isCall := v.(*ssa.Call)
+	idx := 0
+	if ex, isEx := v.(*ssa.Extract); isEx {
+		call, isCall = ex.Tuple.(*ssa.Call)
+		idx = ex.Index
+	}
+	if isCall {
+		if dnf, ok := boolDNFIdx(call, idx, pol, depth); ok {
 			if len(dnf) == 1 {
 				return dnf[0]
 			}
@@ -417,8 +431,14 @@ func expandAtomDNF(a Atom, depth int) [][]string {
 		}
 		break
 	}
-	if call, ok := v.(*ssa.Call); ok {
-		if dnf, ok := boolDNF(call, pol, depth); ok {
+	call, isCall := v.(*ssa.Call)
+	idx := 0
+	if ex, isEx := v.(*ssa.Extract); isEx {
+		call, isCall = ex.Tuple.(*ssa.Call)
+		idx = ex.Index
+	}
+	if isCall {
+		if dnf, ok := boolDNFIdx(call, idx, pol, depth); ok {
 			return dnf
 		}
 	}
